@@ -15,9 +15,9 @@ import (
 	"github.com/idena-network/idena-go/core/appstate"
 	"github.com/idena-network/idena-go/core/mempool"
 	"github.com/idena-network/idena-go/core/state"
+	"github.com/idena-network/idena-go/core/validators"
 	"github.com/pkg/errors"
 
-	"verifharness/internal/evid"
 	"verifharness/internal/sim"
 )
 
@@ -238,10 +238,9 @@ func signSend(s *appstate.AppState, from *sim.Actor, to common.Address, epoch ui
 
 // advanceClock moves the virtual clock to a legal time for the next block; inside a
 // ceremony it often jumps to the next period boundary (as sim.History.Step does).
-func advanceClock(w *sim.World, base *sim.Replica, jump bool, pastBoundary, dt int) {
+func advanceClock(w *sim.World, base *sim.Replica, s *appstate.AppState, jump bool, pastBoundary, dt int) {
 	jumped := false
 	if jump {
-		s := base.ReadState()
 		if b := w.NextBoundary(s); !b.IsZero() && b.After(w.Now()) && b.Sub(w.Now()) < 400*24*time.Hour {
 			w.SetNow(b.Add(time.Duration(pastBoundary) * time.Second))
 			jumped = true
@@ -255,8 +254,21 @@ func advanceClock(w *sim.World, base *sim.Replica, jump bool, pastBoundary, dt i
 	}
 }
 
-func countReasons(prefix string, m map[string]int) {
-	for k, v := range m {
-		evid.CountN(prefix+k, v)
+// privateView builds a read-only view of the head that is not shared with anybody.
+// AppState.Readonly hands every caller the same cached object per height, and the pool validates
+// on it from all submitting goroutines; the concurrent test's own oracle reads must not take
+// part in that, so they get a view of their own (same construction as AppState.Readonly).
+func privateView(r *sim.Replica) *appstate.AppState {
+	h := r.Chain.Head.Height()
+	st, err := r.AppState.State.Readonly(int64(h))
+	if err != nil {
+		panic(fmt.Sprintf("state readonly(%d): %v", h, err))
 	}
+	ist, err := r.AppState.IdentityState.Readonly(h)
+	if err != nil {
+		panic(fmt.Sprintf("identity state readonly(%d): %v", h, err))
+	}
+	vc := validators.NewValidatorsCache(ist, st.GodAddress())
+	vc.Load()
+	return &appstate.AppState{State: st, IdentityState: ist, ValidatorsCache: vc, NonceCache: r.AppState.NonceCache}
 }
